@@ -6,8 +6,9 @@ use crate::val::V;
 fn rebuild(e: &E, mut ch: Vec<E>) -> E {
     let mut next = || ch.remove(0);
     match e {
-        E::Lit(_) | E::FailLit(_) | E::Var(_) | E::Prog(_) => e.clone(),
+        E::Lit(_) | E::FailLit(_) | E::Var(_) | E::Prog(_) | E::Now(_) => e.clone(),
         E::Call(s, a) => E::Call(*s, a.iter().map(|_| next()).collect()),
+        E::NCall(n, a) => E::NCall(n.clone(), a.iter().map(|_| next()).collect()),
         E::Not(_) => E::Not(Box::new(next())),
         E::BoolOf(_) => E::BoolOf(Box::new(next())),
         E::Has(_) => E::Has(Box::new(next())),
